@@ -45,6 +45,9 @@ func GenCiscoCaseK(tp *tape.Tape, kind string, adjust func(*gen.Knobs)) *CiscoCa
 	} else {
 		cs.GA, cs.Ops = gen.DeriveDevice(tp, k, cs.GB)
 	}
+	if k.DropIfaces {
+		cs.Ops = append(cs.Ops, gen.DropInterfaces(cs.GA, 2)...)
+	}
 	if k.Clutter {
 		cs.Ops = append(cs.Ops, gen.AddClutter(tp, cs.GA)...)
 	}
